@@ -204,6 +204,8 @@ pub struct Sim {
     pub global_polls: u64,
     /// the input thread took this line at this global poll count and has not come back for the next
     pub input_busy: Option<(u64, String)>,
+    /// simulated thread id of the input thread (the one that reads stdin)
+    pub input_thread: Option<usize>,
     /// hard cap on should_stop calls per search (harness budget; exceeding it => inconclusive)
     pub node_cap: u64,
     pub node_cap_hit: bool,
@@ -290,6 +292,7 @@ impl Sim {
             polls_since_teardown: 0,
             global_polls: 0,
             input_busy: None,
+            input_thread: None,
             node_cap: u64::MAX,
             node_cap_hit: false,
             killed: false,
@@ -469,8 +472,10 @@ impl<I: Iterator<Item = std::io::Result<String>>> Iterator for Lines<I> {
         match self {
             Lines::Real(i) => i.next(),
             Lines::Sim => loop {
+                let me: usize = shuttle::thread::current().id().into();
                 let step = with_sim(|s| {
                     s.input_busy = None;
+                    s.input_thread = Some(me);
                     let mut src = s.stdin.take().expect("simulated stdin vanished");
                     let n = {
                         let mut core = SimCore { next_caller_limit_ns: &mut s.next_caller_limit_ns, now_ns: s.now_ns, searches: &mut s.searches, faults: &mut s.faults };
@@ -741,6 +746,7 @@ pub fn stop_poll(epoch: &Epoch) -> bool {
     }
     let mut notify = false;
     let mut kill = false;
+    let polling_thread: Option<usize> = if with_sim(|s| s.stdin.is_some()).unwrap_or(false) { Some(shuttle::thread::current().id().into()) } else { None };
     let forced = with_sim(|s| {
         let now_before = s.now_ns;
         let Some(r) = s.searches.get_mut(epoch.id) else { return false };
@@ -778,7 +784,8 @@ pub fn stop_poll(epoch: &Epoch) -> bool {
         // makes a bounded amount of progress (the fair scheduler guarantees the input thread steps)
         s.global_polls += 1;
         if let Some((since, line)) = &s.input_busy {
-            if s.global_polls > since + s.stop_liveness_bound && s.liveness_violation.is_none() {
+            // (a search that runs *on* the input thread — `bench` — is that command making progress)
+            if s.global_polls > since + s.stop_liveness_bound && s.liveness_violation.is_none() && s.input_thread != polling_thread {
                 s.liveness_violation = Some(format!(
                     "the input thread has not finished `{}` after {} polls of search work",
                     line.split_whitespace().next().unwrap_or(""),
